@@ -33,10 +33,10 @@ ASSUMPTIONS = [
 ]
 
 ROOT = "rns"
-DEP_FILES = {"rns/Dep.1.0.dsdl": "@sealed\n"}
+DEP_FILES = {"rns/Dep.1.0.dsdl": "bool OFF = false\nbool ON = true\nuint8 ZERO = 0\n@sealed\n"}
 
 # line alphabet: one symbol per branch of the flush logic
-SYMS_FULL = ["F", "F#", "K", "C", "E", "P", "K#", "Kx", "A", "A#", "R", "D", "Kf", "C0"]
+SYMS_FULL = ["F", "F#", "K", "C", "E", "P", "K#", "Kx", "A", "A#", "R", "D", "Kf", "C0", "Kd"]
 SYMS_SMALL = ["F", "F#", "K", "C", "E", "Kx", "C0"]
 ATTR_SYMS = {"F", "F#", "K", "K#", "Kx", "P", "D", "Kf"}
 
@@ -81,6 +81,11 @@ def body_lines(syms: list[str], prefix: str) -> list[dict] | None:
         elif s == "Kf":
             name = "%sF%d" % (prefix.upper(), i)
             out.append({"stmt": ["const", "saturated float64", name, {"q": [i + 1 + voff, 3] if (i + 1 + voff) % 3 else [10 * (i + 1 + voff) + 1, 30]}], "comment": None, "src": ["float64", name, "=", "%d" % (i + 1 + voff if (i + 1 + voff) % 3 else 10 * (i + 1 + voff) + 1), "/", "3" if (i + 1 + voff) % 3 else "30"]})
+        elif s == "Kd":
+            # a constant initialised from a constant of ANOTHER definition whose value is false / true / zero
+            name = "%sD%d" % (prefix.upper(), i)
+            typ, val, ref = [("bool", {"bool": False}, "Dep.1.0.OFF"), ("bool", {"bool": True}, "rns.Dep.1.0.ON"), ("saturated uint8", 0, "Dep.1.0.ZERO")][(i + voff) % 3]
+            out.append({"stmt": ["const", typ, name, val], "comment": None, "src": [typ.split()[-1], name, "=", ref]})
         elif s == "Kx":
             if last_const is None:
                 return None
